@@ -19,7 +19,8 @@ THEOREMS = [
 RULE = ("catalogs of 1..4 patches whose redshifts are drawn with probability ~0.6 from the edge set itself (inner and "
         "outer edges), else below zmin / above zmax / inside; both closed sides; weighted (integer weights) and "
         "unweighted; bins and patches without objects. Observables (EXACT): per-bin num_records and sum_weights of "
-        "BinnedTrees per patch, HistData.from_catalog per-bin totals, sum_weights1/2 of autocorrelate's DD/DR, "
+        "BinnedTrees per patch, HistData.from_catalog per-bin totals, sum_weights1/2 of autocorrelate's DD/DR and of "
+        "crosscorrelate's DD/RD (reference randoms binned inside the measurement), "
         "against (a) the generated digitize/histogram model and (b) the closed-side membership spec. non-trivial: "
         "at least one redshift exactly on an edge and >= 2 bins; distinct by request text")
 
@@ -57,6 +58,12 @@ def observe(case, cat, edges, closed, P, ci):
         cf = yaw.autocorrelate(conf, cat, cat, count_rr=False)[0]
         case["sw1"] = cf.dd.sum_weights.sum_weights1
         case["sw2"] = cf.dr.sum_weights.sum_weights2
+    if "rand" in case:
+        # reference randoms are binned inside crosscorrelate only: their trees must follow the configured closed side too
+        conf = Configuration.create(rmin=0.1, rmax=1.0, unit="rad", edges=edges, closed=closed)
+        cf = yaw.crosscorrelate(conf, cat, case["unk"], ref_rand=case["rand"])[0]
+        case["sw_rd"] = cf.rd.sum_weights.sum_weights1
+        case["sw_dd_cross"] = cf.dd.sum_weights.sum_weights1
 
 
 def run(prop, tier, seed, replay):
@@ -111,6 +118,10 @@ def run(prop, tier, seed, replay):
                 cat = C.make_catalog(root / f"c{ci}", ra, dec, z=z, w=w if weighted else None, patch=pid)
                 ww = w if weighted else np.ones_like(w)
                 case = dict(ci=ci, B=B, P=P, closed=closed, weighted=weighted, edges=edges, z=z, w=ww, pid=pid, cat=cat)
+                if ci % 4 == 2:
+                    case["rand"] = C.make_catalog(root / f"r{ci}", ra, dec, z=z, w=w if weighted else None, patch=pid)
+                    # (a catalog cannot serve as binned reference and unbinned unknown sample of ONE measurement: own copy)
+                    case["unk"] = C.make_catalog(root / f"u{ci}", ra, dec, z=z, w=w if weighted else None, patch=pid)
                 on_edge = bool(np.isin(z, edges).any())
                 case_reqs = []
                 for p in range(P):
@@ -141,6 +152,8 @@ def run(prop, tier, seed, replay):
                 reqs.extend(case_reqs)
                 cases.append(case)
                 C.remove(root / f"c{ci}")
+                C.remove(root / f"r{ci}")
+                C.remove(root / f"u{ci}")
     finally:
         C.remove(root)
 
@@ -194,9 +207,10 @@ def run(prop, tier, seed, replay):
         if [to_frac(x) for x in case["hist"]] != total:
             ck.add_violation(f"HistData.from_catalog {case['hist'].tolist()} differs from the closed-side rule "
                              f"{[float(x) for x in total]}", dict(rep, what="histdata"))
-        if "sw1" in case:
+        names = [n for n in ("sw1", "sw2", "sw_rd", "sw_dd_cross") if n in case]
+        if names:
             exp = [[spec_rows[p][b] for p in range(P)] for b in range(B)]
-            for name in ("sw1", "sw2"):
+            for name in names:
                 got = [[to_frac(x) for x in row] for row in case[name]]
                 if got != exp:
                     ck.add_violation(f"sum_weights stored with the pair counts ({name}) differ from the closed-side rule",
